@@ -276,8 +276,14 @@ def main():
         known_findings_hit=[f"{f['site']} [{f['input_class']}]" for f in known_hits],
         build_hash=nh, lean_s=round(t_lean, 1), explanation='; '.join(res['notes']) if res else '',
         extra=res['extra'] if res else {})
+    assumptions = ['IEEE arithmetic is exact on the dyadic test inputs', 'NumPy/json/zipfile behave as specified']
+    try:  # what exactly is modelled / assumed for this property: the level_note registered in MANIFEST.json
+        man = json.load(open(os.path.join(VERIF, 'MANIFEST.json')))
+        assumptions += [c['level_note'] for c in man.get('checks', []) if c.get('property_id') == prop and c.get('level_note')]
+    except (OSError, ValueError, KeyError):
+        pass
     ev = dict(property_id=prop, tier=tier, seed=seed, level='proof', coverage=cov,
-              assumptions=['IEEE arithmetic is exact on the dyadic test inputs', 'NumPy/json/zipfile behave as specified'],
+              assumptions=assumptions,
               wall_s=round(wall, 2), violations=len(violations))
     os.makedirs(os.path.join(VERIF, 'evidence'), exist_ok=True)
     json.dump(ev, open(os.path.join(VERIF, 'evidence', prop + '.json'), 'w'), indent=1, default=str)
